@@ -2,7 +2,7 @@
     connectivity relation of lib/Reach.v, pairwise disjoint; hence the orbits reported for a disconnected graph
     partition the nodes too.  Stdlib lists. *)
 From Coq Require Import List NArith ZArith Bool Arith Lia Permutation.
-From SK Require Import lib.LGraph lib.Mono lib.Reach model.C11_Model proof.C11_Aut proof.C11_WL proof.C11_Main.
+From SK Require Import lib.LGraph lib.Mono lib.Reach model.C11_Model proof.C11_Aut proof.C11_WL proof.C11_Dedup proof.C11_Main.
 Import ListNotations.
 
 Fixpoint pairwise_disjoint (l : list (list N)) : Prop :=
@@ -144,4 +144,41 @@ Proof.
       * intros (c' & Hc' & Huc' & Hrel).
         assert (c' = c) by (apply (pairwise_disjoint_eq _ Hdisj c' c u Hc' Hcin Huc'); apply (Hin_c o c u Ho Hu)).
         subst c'. apply (H5 o u v Ho Hu). exact Hrel.
+Qed.
+
+(** ---------- non-vacuity ---------- *)
+(** the VF2 contract is satisfiable by a list other than the model's own: the same maps in the opposite order *)
+Example ex_vf2 :
+  let E := rev (auts n_exact e_order ex_path) in
+  E <> auts n_exact e_order ex_path /\ NoDup E /\
+  (forall m, In m E <-> exists s, is_automorphism n_exact e_order ex_path s /\ m = aut_pairs ex_path s) /\
+  analyze_component_with (node_ids ex_path) E = ([[2]; [1; 3]]%N, 2%N).
+Proof.
+  pose proof (wf_simple _ ex_path_wf) as Hg.
+  split; [vm_compute; discriminate|]. split; [apply NoDup_rev, auts_nodup; exact Hg|].
+  split; [|vm_compute; reflexivity].
+  intros m. rewrite <- in_rev. apply auts_listing. exact Hg.
+Qed.
+
+(** a disconnected graph: two components, the orbit of 1 is {1,2} through an automorphism of the component {1,2} *)
+Example ex_partition :
+  wf ex_disc /\ (1 < length (components ex_disc))%nat /\ components ex_disc = [[2; 1]; [5]]%N /\
+  a_orbits (analyze n_exact e_order ex_disc) = [[1; 2]; [5]]%N /\
+  same_orbit n_exact e_order (induced_sub ex_disc [2; 1]%N) 1 2.
+Proof.
+  split; [exact ex_disc_wf|]. split; [vm_compute; lia|]. split; [vm_compute; reflexivity|].
+  split; [vm_compute; reflexivity|].
+  exists [(2, 1); (1, 2)]%N. split; [vm_compute; tauto | right; left; reflexivity].
+Qed.
+
+(** the premises of the function-level pruning theorem hold for the example rule centre and its matches *)
+Example ex_prune_aut :
+  simple_graph ex_path /\
+  (forall x p h, In x ex_raw -> In (p, h) ((fun m : mapping => m) x) -> In p (node_ids ex_path)) /\
+  length (prune (fun m : mapping => m) ex_path ex_raw) = 2%nat.
+Proof.
+  split; [apply wf_simple, ex_path_wf|]. split; [|vm_compute; reflexivity].
+  intros x p h Hx Hin. simpl in Hx.
+  destruct Hx as [<-|[<-|[<-|[]]]]; simpl in Hin;
+    repeat (destruct Hin as [Hin|Hin]; [inversion Hin; subst; simpl; tauto|]); destruct Hin.
 Qed.
